@@ -30,3 +30,50 @@ def fill(claim, na):
       'Abstract interpretation of figure_tax over piecewise-affine functions of one real variable: for each year and each of the five filing statuses the function is folded into a partition of [0, 1e12] with exact rational pieces and compared, on the common refinement (every open piece and every break point, about 62 000 per run), with the statutory schedule built from an independent table of bracket edges; monotonicity, bounded step and QSS = MFJ are checked on the computed function; the three call sites per year must pass (line value, Form 1040 filing status) to the same year\'s function. All reals, not sampled incomes.',
       'Trusted: sa/pwaffine.py (exits 2 if figure_tax leaves the piecewise-affine subset) and the bracket edges typed into sa/data/tax_schedules.json from Rev. Proc. 2020-45/2021-45/2022-38 (cross-validated: they reproduce every cell of all three tax tables and every worksheet row). Not decided: float rounding of b*x-d (at most 1 ulp before the cent rounding).',
       'abstract interpretation (piecewise-affine domain) + exact comparison with a statutory oracle', 'DESIGN.md §3 C07')
+
+    CORE_NOTE = ('Trusted: sa/cfg.py (statement CFG + dominators), sa/core.py (role inference for the solver attributes; a role that cannot be inferred uniquely, '
+                 'or an anchor function that vanished, is an analysis error), and the rule texts in sa/corerules.py. ')
+    c('C01',
+      'Structural clauses decided on every CFG path of the core: success flag only under the conjunction of the three emptiness conditions (K1), CLI reports all three diagnostics on failure and the success text only on success (K1b), the four signalling exceptions are recorded on all handler paths and cannot be swallowed anywhere on the solve call path, no try in any of the 2 400 line definitions (K2), not_implemented() always raises (K3), unknown form aborts before any state change (K4), unimplemented list only grows (K5), single value-store writer and raising reads (K6/K7), accessor discipline of all line definitions (L1).',
+      CORE_NOTE + 'Not decided: that the dependency trackers never lose a registered waiter (algorithmic, all histories), hence the full clause "no demanded line is left without a value".',
+      'CFG dominance / must-pass-through / who-writes / exception-flow rules + abstract interpretation of line definitions (L1)', 'DESIGN.md §3 C01')
+    c('C03',
+      'The three premises from which the fixed-point property follows are each decided structurally: P1 purity of all shipped line definitions and module helpers (L1 access discipline, L2 effect analysis over all paths), P2 absent keys abort before anything is stored (K7, K11, K6), P3 stores only grow and stored values are never rewritten (K6, K8), plus deterministic rounding at the choke point (K21).',
+      CORE_NOTE + 'The implication premises => property is argued in DESIGN.md, not mechanised. Not decided: arbitrary generated form programs (P1 is per program) and all evaluation orders (needs C06).',
+      'effect analysis of line definitions (abstract interpretation) + CFG dominance / who-writes rules', 'DESIGN.md §3 C03')
+    c('C04',
+      'Scheduling clauses: who may schedule (K12), adding a form schedules exactly required_fields() and registers fields(), input-only loading touches no solve state (K13), the dependency handler adds the named form fully and schedules exactly the missing line (K13b), the solution lists every stored value (K14), input forms register mirror lines as required (K21d).',
+      CORE_NOTE + 'Not decided: that every scheduled line received a value on a successful run (C06) and which lines the data-dependent demand consists of.',
+      'who-may-call + CFG dominance rules on the solver', 'DESIGN.md §3 C04')
+    c('C05',
+      'Premises of order/layout independence: purity of all line definitions (L1, L2), write-once stores behind one read gate (K6, K7, K8, K11), determinism lint over the core and all 76 form modules - no time/random/environment/identity/set-order dependence (K16), file and prompt answers share one store entry and one validation gate (K8, K18).',
+      CORE_NOTE + 'Not decided: independence from the attempt order for all schedules (needs "no waiter lost", C06); the schedule-permutation hook named by the property is a dynamic device and is not used.',
+      'effect analysis + determinism lint + who-writes rules', 'DESIGN.md §3 C05')
+    c('C06',
+      'Four structural clauses only: store => meet with the same key (K9), refusal monotone, re-tested between prompts, prompt called from one place (K10), a dependency is scheduled once and marked (K12), line-attempt loops iterate over materialised sequences, never the live generator (K15). Each has a concrete failure mode (lost release, endless prompting, duplicate scheduling, livelock).',
+      CORE_NOTE + 'NOT decided and not claimed: termination of the work list, the bound on evaluations per line and exactly-once release - these quantify over all histories of register/meet/drain (model-checking territory).',
+      'CFG successor / cycle / dominance rules on the solver', 'DESIGN.md §3 C06')
+    c('C11',
+      'Gate clauses: in InputStore.__getitem__ the converted value is dominated, in order, by specification-known, supplied and valid(text) on the same unmodified text, each failure raising its own exception (K11); sole access path to the raw configuration (K11b, L1 over all line definitions); valid() implementations go through value() (K11c); float inputs pass a finiteness test (K11d); supplied <=> found, no fallback/defaults (K11e); prompt loop returns only validated answers (K20).',
+      CORE_NOTE + 'Not decided: the accepted language of each validator for arbitrary strings (unicode digits, underscores, case).',
+      'CFG dominance (ordered must-pass-through) rules on inputs.py + accessor discipline of line definitions', 'DESIGN.md §3 C11')
+    c('C12',
+      'Choke-point rules: TypedField.value returns the empty value only for None/blank text and otherwise only after an exact type test whose failing branch raises a TypeError naming the line (K21a); FloatField rounds to the declared places on the way into the store (K21b); nothing bypasses it (K21c, K6); empty values and types per class (K21e); input-form mirror table agrees with the value types of the input classes (K21d).',
+      CORE_NOTE + 'The behaviour for every Python value a definition might return is exactly the choke point; nothing further is assumed.',
+      'CFG dominance rules on fields.py / form.py + who-calls', 'DESIGN.md §3 C12')
+    c('C13',
+      'Who-calls / def-use clauses: prompt only from _attempt_input, which is only called from the loop over the input tracker\'s unmet dependencies with the waiters of that same input (K10, K17); tracker fed only by the MissingInput handler (K2, K17); MissingInput raised only by the store after provides() was false (K11, K17); answers land in the object that write() serialises and the CLI writes that very store (K8, K18).',
+      CORE_NOTE + 'Not decided: "re-running asks nothing and produces the identical solution" - a two-run history over the INI text round trip.',
+      'who-may-call + def-use rules on solver.py / inputs.py / CLI', 'DESIGN.md §3 C13')
+    c('C14',
+      'Agreement clauses between writer and reader: tax-year section/key/getint/catalogue index/section removal (K22a); per-type to_string/from_string consistency and filler re-typing (K22b); all ~130 enum-typed inputs and lines per year use enumerations whose str(member) is the member name; parsers carrying user text have interpolation disabled (K22c); to_config writes every value (K14).',
+      CORE_NOTE + 'Not decided: exact round trip of every float/int/str value (numeric formatting, multi-line text) - runtime values.',
+      'writer/reader agreement rules (AST) + catalogue sweep', 'DESIGN.md §3 C14')
+    c('C19',
+      'Structural clauses: taint rule - every value written between the parentheses of a PDF literal string passes through the escaping function, which handles backslash first, then both parentheses (K23a); selection by needs_filing, ordering by (jurisdiction, sequence_no), one pass (K23b) with class rules over all 70 form classes (input forms/worksheets constant-False, filing forms uniquely positioned); raise-never-truncate and no swallowing handler on the fill path (K23c).',
+      CORE_NOTE + 'Not decided: what pdftk does with the form data; non-ASCII text.',
+      'taint / def-use / exception-flow rules on pdf_filler.py and pdf_fields.py + catalogue class rules', 'DESIGN.md §3 C19')
+    c('C20',
+      'Structural clauses: Solver.solve() inside a try whose finally writes the store back under --writeback-input only, no swallowing handler, nothing interactive before the protected region (K19); Ctrl-C becomes "not supplied", other interruptions propagate (K20); answers are stored immediately into the store object the CLI writes (K8, K18); refusal stops prompting (K10).',
+      CORE_NOTE + 'Not decided: well-formedness of the written file for arbitrary answer text and atomicity of write() (truncate-then-write).',
+      'CFG / try-finally structure rules on the CLI and the solver', 'DESIGN.md §3 C20')
